@@ -149,6 +149,32 @@ def diag_versions(rnd, root):
     return out
 
 
+FX = "import pytest\n\n@pytest.fixture\ndef %s():\n    return 1\n"
+
+
+def disk_case(rnd, root):
+    """a workspace that EXISTS ON DISK before the server starts (the scan indexes it, venv plugin
+    included), then documents opened with exactly their on-disk text, edited and edited back;
+    a conftest edit in between changes what the unchanged test module must be told"""
+    sp = root + "/.venv/lib/python3.11/site-packages"
+    plug = sp + "/pytest_fake/plugin.py"
+    conf = root + "/conftest.py"
+    tp = root + "/pkg/test_plug.py"
+    body = "import pytest\n\ndef test_p():\n    fake_mocker.patch()\n    y = conf_fx\n    return y\n"
+    declared = "import pytest\n\ndef test_p(fake_mocker, conf_fx):\n    fake_mocker.patch()\n    y = conf_fx\n    return y\n"
+    disk = {sp + "/pytest_fake/__init__.py": "", plug: FX % "fake_mocker",
+            sp + "/pytest_fake-1.0.dist-info/entry_points.txt": "[pytest11]\nfake = pytest_fake.plugin\n",
+            conf: FX % "conf_fx", tp: body}
+    versions = [(tp, body)]
+    if rnd.random() < 0.6:
+        versions += [(tp, declared), (tp, body)]
+    versions += [(conf, FX % "conf_fx")] if rnd.random() < 0.5 else []
+    versions += [(conf, FX % "other_fx"), (tp, body)]
+    if rnd.random() < 0.5:
+        versions += [(conf, FX % "conf_fx"), (tp, body)]
+    return disk, versions, {plug: FX % "fake_mocker", conf: FX % "conf_fx", tp: body}
+
+
 def explore_server(r, h1, rnd, n, stdlib):
     import lsp
     binp = core.build_binary()
@@ -165,6 +191,13 @@ def explore_server(r, h1, rnd, n, stdlib):
                 c = corpus[i]
                 text, ex, dis, ok = c["pyproject"], [], [], True
                 h = {"versions": [(os.path.join(root, q), t) for q, t in c["versions"]], "tags": c["tags"]}
+            elif (i - len(corpus)) % 5 == 2:
+                text, ex, dis, ok = "", [], [], True
+                disk, versions, indexed = disk_case(rnd, root)
+                for q, tt in disk.items():
+                    os.makedirs(os.path.dirname(q), exist_ok=True)
+                    open(q, "w").write(tt)
+                h = {"versions": versions, "tags": ["on-disk-before-start"], "indexed": indexed}
             else:
                 text, ex, dis, ok = gen_pyproject(rnd)
                 h = histgen.gen_history(rnd, root=root)
@@ -177,7 +210,7 @@ def explore_server(r, h1, rnd, n, stdlib):
             steps, h1_ops = [], []
             try:
                 srv.wait_for_log("Workspace scan complete", timeout=30)
-                seen, latest, last_valid = set(), {}, {}
+                seen, latest, last_valid = set(), {}, dict(h.get("indexed", {}))
                 ver = 1
                 case_steps = []
                 for (p, t) in h["versions"]:
@@ -200,7 +233,7 @@ def explore_server(r, h1, rnd, n, stdlib):
                     srv.shutdown()
                 except Exception:
                     pass
-            metas.append({"id": i, "raw": raw, "pyproject": text, "steps": case_steps, "tags": h["tags"]})
+            metas.append({"id": i, "raw": raw, "pyproject": text, "steps": case_steps, "tags": h["tags"], "indexed": h.get("indexed", {})})
         # fresh library findings for every notification
         h1_cases = []
         for m in metas:
@@ -210,9 +243,11 @@ def explore_server(r, h1, rnd, n, stdlib):
                     {"op": "mismatches", "path": st["path"]}]})
         obs, _ = core.run_h1(h1, h1_cases, "C19_fresh", timeout=1800)
         for m in metas:
-            case = {"steps": [{"op": "analyze", "path": st["path"], "text": st["text"]} for st in m["steps"]]}
+            pre = [{"op": "analyze", "path": q, "text": tt} for q, tt in m.get("indexed", {}).items()]
+            case = {"steps": pre + [{"op": "analyze", "path": st["path"], "text": st["text"]} for st in m["steps"]]}
             ids = core.text_ids(case)
-            cs = []
+            # what the scan indexed before the first notification
+            cs = ["Ev19 (" + core.coq_step(st0, None, ids, stdlib)[3:] + ")" for st0 in pre]
             for k, st in enumerate(m["steps"]):
                 o = obs[m["id"] * 1000 + k]["obs"]
                 fresh = lib_findings(o[-3], o[-2], o[-1]) if not any(isinstance(x, dict) and "panic" in x for x in o[-3:]) else []
@@ -253,16 +288,19 @@ def run(r):
     for k, b in enumerate((cfg_bad + srv_bad)[:2]):
         r.violation(dict({"property": PID}, **b), "direct_%d" % k)
     for k, (m, prop) in enumerate(sorted(prop_fail, key=lambda x: len(x[0]["steps"]))[:3]):
-        st = m["steps"][prop[0] // 2]
+        k0 = (prop[0] - len(m.get("indexed", {}))) // 2
+        st = m["steps"][k0]
         r.violation({"property": PID, "why": "the diagnostics the client received are not (findings of a fresh database for the latest contents) minus the disabled codes",
-                     "pyproject": m["pyproject"], "disabled_raw": m["raw"], "notification_index": prop[0] // 2,
-                     "history": [(s["path"], s["text"]) for s in m["steps"][:prop[0] // 2 + 1]],
+                     "pyproject": m["pyproject"], "disabled_raw": m["raw"], "notification_index": k0, "on_disk_before_start": m.get("indexed", {}),
+                     "history": [(s["path"], s["text"]) for s in m["steps"][:k0 + 1]],
                      "published": st["published"], "fresh_findings": st.get("fresh"), "seed": r.seed}, "prop_%d" % k)
     if (corr_fail or cfg_corr) and not r.violations:
         if corr_fail:
             m, corr = corr_fail[0]
-            st = m["steps"][corr[0] // 2]
-            detail = {"pyproject": m["pyproject"], "history": [(s["path"], s["text"]) for s in m["steps"][:corr[0] // 2 + 1]], "published": st["published"]}
+            k1 = max(0, (corr[0] - len(m.get("indexed", {}))) // 2)
+            st = m["steps"][k1]
+            detail = {"pyproject": m["pyproject"], "history": [(s["path"], s["text"]) for s in m["steps"][:k1 + 1]], "published": st["published"],
+                      "on_disk_before_start": m.get("indexed", {})}
         else:
             detail = cfg_corr[0]
         r.violation(dict({"property": PID, "broken": "corr:C19 (model Model.Lsp and the server / Config::parse disagree; the spec accepts every answer explored)",
